@@ -34,7 +34,28 @@ CLAIMED = {
  "C20": dict(text="Theorems: importing any permutation of a reachable store's frames into an empty store yields the same stored frames (ids, order, fields) and the same usable "
              "contexts, hence identical reads/gets/heads; import order irrelevant; re-import idempotent; import keeps id and id-position; NUL topic rejected whole; import is silent.",
              design="5/C20", technique="Lean 4 proof (permutation invariance via sorted-list extensionality) + differential execution incl. export→permuted re-import round trips"),
+
+ "C02": dict(text="Theorems over the append/follow LTS (any number of writers, any interleaving at the granularity of id-assignment / commit / broadcast / subscribe / scan / live steps): "
+             "the stored stream only grows at its end by frames with greater ids; broadcasts are in id order; a last-id poller receives exactly the frames appended since its last poll; "
+             "no second append.id and no follow subscription is enabled while an append is in flight (the append lock). The implementation's observed executions are replayed on the LTS.",
+             design="5/C02", technique="Lean 4 invariant proof over a labelled transition system; correspondence by replaying hook-observed executions + hook-free 8-writer stress",
+             note="B"),
+ "C03": dict(text="Theorems over the same LTS for every schedule: history part = every stored in-scope frame after the start position up to the scan cursor, once, in order; live part = exactly "
+             "the in-scope frames broadcast since the subscription (ephemeral included) with nothing skipped while the stream is open and unlagged; deliveries strictly increasing in id; history ≤ cut < live; "
+             "exactly one xs.threshold between the two parts for an unlimited non-tail follow.",
+             design="5/C03", technique="Lean 4 invariant proof over a labelled transition system; correspondence by replaying hook-observed schedules (appends released at every reader step)",
+             note="B"),
+ "C11": dict(text="Theorems: with limit n ≥ 1 never more than n frames; when n are delivered and the reader's tasks have wound down the stream is closed (history thread, live task and heartbeat all "
+             "gone) and a closed stream admits no further step; tail delivers no history; pulses only with heartbeat and the heartbeat stops with live delivery; no threshold unless unlimited non-tail follow; "
+             "a lagged subscription takes nothing further and ends.",
+             design="5/C11", technique="Lean 4 invariant proof over a labelled transition system; correspondence incl. slow-consumer lag (>1024 behind, during and after replay)",
+             note="B"),
 }
+
+FOLLOW_NOTE = ("Trusted: Lean 4.33 kernel (axioms propext, Classical.choice, Quot.sound only); the hand-written LTS XsModel/Follow.lean (one reader, any number of writers through the append lock; "
+               "TTL expiry/removal during a follow not modelled); the correspondence: the global order in which threads reach the verif sync points is replayed as LTS actions (each must be enabled and handle "
+               "the frame the model expects; final deliveries, stream end and stored frames must agree) and the property statements are evaluated on the observed execution; tokio broadcast (FIFO, cap 1024, "
+               "lag error), mpsc FIFO, std Mutex, scru128 monotonic ids.")
 
 def check_entry(pid):
     c = CLAIMED[pid]
@@ -46,7 +67,7 @@ def check_entry(pid):
         "replay_cmd_template": f"./check {pid} --replay {{path}}",
         "engine": "lean+xsw",
         "level_claimed": {"category": "proof", "text": c["text"], "design_ref": "DESIGN.md section " + c["design"]},
-        "level_note": c.get("note", STORE_NOTE),
+        "level_note": FOLLOW_NOTE if c.get("note") == "B" else c.get("note", STORE_NOTE),
         "technique": c["technique"],
     }
 
